@@ -51,7 +51,7 @@ def gen(seed):
     repeat = rng.choice([1, 1, 2])
     if sites:
         for k in range(nthreads):
-            s = dict(rng.choice(sites))
+            s = dict(rng.choice(sites + lsites if rng.random() < 0.25 else sites))
             kind = rng.choice(['threading', 'threading', 'lowlevel'])
             name = rng.choice(['worker-%d' % k, 'pool-%d' % k, 'ignored-%d' % k, None,
                                'worker', 'worker'])
@@ -118,7 +118,13 @@ def expected_reports(spec, res, tw):
     ended = {}
     poked = {}
     renames = {}     # tname -> [(trace index, new name)]
+    pre_test = set()     # threads started inside a layer's testSetUp hook: before the test
+    last_site = None
     for i, ev in enumerate(events):
+        if ev[1] != 'fault':
+            last_site = ev[1]
+        elif ev[2] == 'call:thread_start' and last_site == 'layer.testSetUp':
+            pre_test.add(plan[ev[3]]['tname'])
         if ev[1] == 'fault' and ev[2] == 'call:thread_rename':
             e_ = plan[ev[3]]
             tn = e_['tname']
@@ -143,11 +149,13 @@ def expected_reports(spec, res, tw):
         # the threads alive when the test started (the runner's snapshot), by simulated ident
         at_start = {}
         for tn, si in started.items():
-            if si < lo and not (tn in ended and ended[tn] < lo):
+            if (si < lo or (tn in pre_test and si < hi)) and not (tn in ended and ended[tn] < lo):
                 at_start[tw.reg[tn]['sim']] = tw.reg[tn]['kind']
         leaked = []
         for tn, si in started.items():
-            if lo < si < hi and not (tn in ended and ended[tn] < hi):
+            # (a thread started by a layer's testSetUp exists before the test starts: the runner
+            # takes its snapshot after those hooks; one started by a testTearDown hook counts)
+            if lo < si < hi and tn not in pre_test and not (tn in ended and ended[tn] < hi):
                 rec = tw.reg[tn]
                 name = (rec['name'] or tn) if rec['kind'] == 'threading' \
                     else 'Dummy-%d' % rec['sim']
